@@ -337,6 +337,11 @@ def packet_lists(thorough):
         yield [(4, b'\x00')] * n
     for n in (17, 18, 40, 100):
         yield [(6, None)] * n
+    # a binary packet between two others, for every leading byte (its base64 text starts with every character of the alphabet,
+    # the channel marker included)
+    for a in range(256):
+        yield [(4, 'before'), (4, bytes([a, 1, 2])), (2, None)]
+        yield [(4, bytes([a]))]
     if thorough:
         for t in itertools.product(REPS, repeat=4):
             yield list(t)
